@@ -31,6 +31,7 @@ func v14gLoadSched(minN, maxN, sched int) {
 		// native run repeats the load (under the Go scheduler a
 		// schedule-dependent counterexample shows up by repetition)
 		verif.Schedules(sched)
+		verif.Races(true)
 		rounds = verif.NativeRounds(200)
 	} else {
 		verif.Goroutines(true)
